@@ -222,6 +222,9 @@ class ExprMixin:
         if isinstance(n.op, ast.Div):
             return frozenset(J([a, b]) for a in l for b in r), st
         if isinstance(n.op, ast.Mod):
+            if not all(is_const(a) and isinstance(a[1], str) for a in l):
+                # printf-style formatting with run-time data in the FORMAT string raises on a stray `%`
+                self.raise_star(st, out)
             return frozenset(cat([a, ("fmtargs", b)]) if False else a for a in l), st
         return V(("arith", type(n.op).__name__, l, r)), st
 
@@ -308,6 +311,8 @@ class ExprMixin:
 
     def getattr_term(self, r, attr, st, frame, node):
         tg = tag(r)
+        if tg == "probe" and r[1] == "stat" and attr == "st_size":
+            return V(("probe", "getsize", r[2], r[3]))
         if tg == "self":
             got = st.iattrs.get((r, attr))
             if got is not None:
@@ -1005,7 +1010,7 @@ class ExprMixin:
                 if kind == "CLOSE":
                     st = st.set(done=st.done | {("closed", r[1])})
             else:
-                st = self.emit("HANDLEOP", "file." + meth, [V(r[1])], n, st, frame, extra={"handle": r})
+                st = self.emit("HANDLEOP", "file." + meth, [V(r[1])], n, st, frame, extra={"handle": r, "mode": r[2], "args": list(args)})
             if meth == "read":
                 return V(("content", r[1])), st
             if meth in ("readlines", "readline"):
@@ -1054,6 +1059,16 @@ class ExprMixin:
             if meth in ("exists", "is_file", "is_dir"):
                 st = self.emit("PROBE", "Path." + meth, [V(r)], n, st, frame)
                 return V(("probe", meth, V(r), st.muts)), st
+            if meth in ("glob", "rglob", "iterdir"):
+                # the directory's entries as full paths
+                self.raise_star(st, out)
+                st = self.emit("PROBE", "os.listdir", [V(r)], n, st, frame)
+                return V(("listof", V(J([r, ("listed", r)])))), st
+            if meth in ("stat", "lstat"):
+                # Path.stat() is os.stat(self): raises for a missing file, the result's st_size is os.path.getsize
+                self.raise_star(st, out)
+                st = self.emit("PROBE", "os.stat", [V(r)], n, st, frame)
+                return V(("probe", "stat", V(r), st.muts)), st
             if meth in ("unlink",):
                 self.raise_star(st, out)
                 return V(NONE), self.emit("REMOVE", "Path.unlink", [V(r)], n, st, frame)
